@@ -294,7 +294,26 @@ def r07e(model: Model, rr: RuleResult):
         rr.bad_shape(s, s.node, "index-subtable names and locations are not built from the same sequence", construct="_make_cbdt_strike: names/locations")
     o = model.func("bitmap_tables", "_cbdt_bitmapdata_offsets")
     t = " ".join(norm(st) for st in ast.walk(o.node) if isinstance(st, (ast.Expr, ast.AugAssign, ast.Return)))
-    if "offsets.append(offset)" in t and "offset += _cbdt_record_size(image_format, color_glyph.bitmap)" in t and "return list(zip(offsets, offsets[1:]))" in t:
+    # the same running sum as a library call: accumulate(<record size of each glyph, in order>, initial=<first offset>) paired with itself shifted by one
+    alt = False
+    ocfg = cfg_of(o)
+    orets = [st for st in walk_body(o) if isinstance(st, ast.Return) and st.value is not None]
+    if len(orets) == 1:
+        from ..dataflow import deref as _d7, comprehension_over_base as _cob7
+        rv = orets[0].value
+        if isinstance(rv, ast.Call) and norm(rv.func) == "list" and len(rv.args) == 1:
+            rv = rv.args[0]
+        if isinstance(rv, ast.Call) and norm(rv.func) == "zip" and len(rv.args) == 2 and isinstance(rv.args[0], ast.Name) \
+                and norm(rv.args[1]) == f"{rv.args[0].id}[1:]":
+            acc = _d7(ocfg, ocfg.node_for(orets[0]), rv.args[0])
+            if isinstance(acc, ast.Call) and norm(acc.func) in ("list", "tuple") and len(acc.args) == 1:
+                acc = acc.args[0]
+            if isinstance(acc, ast.Call) and callee_tail(acc) == "accumulate" and len(acc.args) == 1 and kwarg(acc, "initial") is not None \
+                    and norm(kwarg(acc, "initial")) == o.params[0]:
+                sizes = _d7(ocfg, ocfg.node_for(orets[0]), acc.args[0])
+                rd7 = _cob7(ocfg, ocfg.node_for(orets[0]), sizes) if isinstance(sizes, (ast.ListComp, ast.GeneratorExp)) else None
+                alt = rd7 is not None and rd7[0] == o.params[2] and norm(rd7[1]["elt"]) == f"_cbdt_record_size({o.params[1]}, _e.bitmap)"
+    if alt or ("offsets.append(offset)" in t and "offset += _cbdt_record_size(image_format, color_glyph.bitmap)" in t and "return list(zip(offsets, offsets[1:]))" in t):
         rr.ok("locations are consecutive (start, end) pairs sized by each glyph's own record")
     else:
         rr.bad_shape(o, o.node, "bitmap data offsets are not consecutive per-glyph (start, end) pairs", construct="_cbdt_bitmapdata_offsets body")
